@@ -134,8 +134,14 @@ def _accept_set(w, ci):
         out |= a
       return out
     if isinstance(e, ast.BoolOp) and isinstance(e.op, ast.And):
-      # first conjunct decides the outer tag; the others only narrow
-      return acc(e.values[0])
+      # first conjunct decides the outer tag; the others only narrow. One narrowing is tracked:
+      # `is_int_short(value)` turns int into the refined tag shortint.
+      a = acc(e.values[0])
+      if a is not None and "int" in a and any(
+          isinstance(v, ast.Call) and dotted(v.func) == "is_int_short" and text(v.args[0]) == p
+          for v in e.values[1:]):
+        a = (a - {"int", "bool"}) | {"shortint"}
+      return a
     if isinstance(e, ast.Call) and dotted(e.func) == "isinstance" and text(e.args[0]) == p:
       s = names(e.args[1])
       # isinstance(x, int) also admits bool; isinstance(x, list) admits RecordList
@@ -199,6 +205,32 @@ class Tagger(object):
     visit(fi.node.body, None)
     return tags
 
+  def range_checked(self, fi, site, name):
+    """Is `site` dominated by `if not is_int_short(name): raise ...` with no rebinding of name in
+    between, and is name's only definition an exact int (int(...))?"""
+    fn = self.w.fn_of(fi)
+    cfg = fn.cfg
+    sites = [n for n in cfg.nodes if n.stmt is site]
+    if not sites:
+      return False
+    guards = set()
+    for n in cfg.nodes:
+      if n.kind == "if" and isinstance(n.stmt.test, ast.UnaryOp) and \
+          isinstance(n.stmt.test.op, ast.Not) and isinstance(n.stmt.test.operand, ast.Call) and \
+          dotted(n.stmt.test.operand.func) == "is_int_short" and \
+          text(n.stmt.test.operand.args[0]) == name and \
+          n.stmt.body and all(isinstance(s, ast.Raise) for s in n.stmt.body):
+        guards.add(n.id)
+    if not guards or not cfg.dominated_by(sites[0].id, guards):
+      return False
+    defs = [n for n in cfg.nodes if n.kind == "stmt" and isinstance(n.stmt, ast.Assign) and
+            any(isinstance(t, ast.Name) and t.id == name for t in n.stmt.targets)]
+    if name in fi.params() or len(defs) != 1:
+      return False
+    d = defs[0]
+    exact_int = isinstance(d.stmt.value, ast.Call) and dotted(d.stmt.value.func) == "int"
+    return exact_int and all(cfg.dominated_by(g, {d.id}) for g in guards)
+
   def test_tags(self, test, name):
     if isinstance(test, ast.Call) and dotted(test.func) == "isinstance" and \
         text(test.args[0]) == name:
@@ -232,6 +264,8 @@ class Tagger(object):
       return {"none"}
     if isinstance(e, ast.Constant):
       v = e.value
+      if type(v) is int and -(1 << 31) <= v < (1 << 31):
+        return {"shortint"}
       return {"none" if v is None else type(v).__name__}
     if isinstance(e, ast.IfExp):
       return self.tags(e.body, fi, site, depth) | self.tags(e.orelse, fi, site, depth)
@@ -296,6 +330,8 @@ class Tagger(object):
           return out
       return {"any"}
     if isinstance(e, ast.Name):
+      if self.range_checked(fi, site, e.id):
+        return {"shortint"}
       g = self.guards(fi, site, e.id)
       if g is not None:
         return g
@@ -327,7 +363,12 @@ def r2_tags(run, w):
       if accept is None:
         ok, why = True, None
       else:
-        extra = tags - accept - {"str"}
+        eff = set(accept)
+        if "shortint" in eff and "int" not in eff:
+          pass                      # int results must be range-checked
+        elif "int" in eff:
+          eff.add("shortint")
+        extra = tags - eff - {"str"}
         ok = not extra
         why = None if ok else "may return %s; is_right_type accepts %s" % (
           ",".join(sorted(extra)), ",".join(sorted(accept)))
@@ -342,6 +383,27 @@ VARIANTS = [
   ("blob-identity", UT, """    if isinstance(value, (bytes, NoneType)):
       return value
     raise objtypes.ConversionError("Blob")""", "    return value", "C22-R2"),
+  ("int-passthrough-skips-range-check", UT, """    if value in ("", None):
+      return None
+    # Convert to float first, since python does not allow casting strings with decimals to int""",
+   """    if value in ("", None):
+      return None
+    if type(value) is int:
+      return value
+    # Convert to float first, since python does not allow casting strings with decimals to int""", "C22-R2"),
+  ("id-range-check-dropped", UT, """    ret = int(value)
+    if not is_int_short(ret):
+      raise OverflowError("Integer value too large")
+    return ret
+
+  @classmethod
+  def is_right_type(cls, value):
+    return (type(value) is int and is_int_short(value))""", """    ret = int(value)
+    return ret
+
+  @classmethod
+  def is_right_type(cls, value):
+    return (type(value) is int and is_int_short(value))""", "C22-R2"),
   ("int-returns-float", UT, "    ret = int(float(value))\n    if not is_int_short(ret):\n      raise OverflowError(\"Integer value too large\")\n    return ret\n\n  @classmethod\n  def is_right_type(cls, value):\n    return value is None or",
    "    ret = float(value)\n    if not is_int_short(ret):\n      raise OverflowError(\"Integer value too large\")\n    return ret\n\n  @classmethod\n  def is_right_type(cls, value):\n    return value is None or", "C22-R2"),
   ("bool-returns-none", UT, "    if not value:\n      return False\n    if isinstance(value, _numeric_types):\n      return True",
